@@ -282,7 +282,7 @@ func (x *run) waitAssigned(gen int) {
 			return
 		}
 		if time.Now().After(deadline) {
-			x.c.Inconclusive("splits were not assigned within the watchdog (deploys: %v, job errors: %v; goroutines: %s)", len(x.cl.Deploys()), x.cl.JobErrors(), lib.BlockedSummary())
+			x.c.Inconclusive("splits were not assigned within the watchdog (deploys: %v, last deploy errors: %v, job errors: %v; goroutines: %s)", len(x.cl.Deploys()), lastDeployErrors(x.cl.Deploys(), 3), x.cl.JobErrors(), lib.BlockedSummary())
 		}
 		time.Sleep(200 * time.Microsecond)
 	}
@@ -406,4 +406,14 @@ func firstN(xs []string, n int) []string {
 		return xs[:n]
 	}
 	return xs
+}
+
+func lastDeployErrors(ds []cluster.DeployRec, n int) []string {
+	var out []string
+	for i := len(ds) - 1; i >= 0 && len(out) < n; i-- {
+		if ds[i].Err != nil {
+			out = append(out, fmt.Sprintf("round %d %s %s: %v", ds[i].Round, ds[i].Kind, ds[i].Node, ds[i].Err))
+		}
+	}
+	return out
 }
